@@ -74,7 +74,7 @@ static bool has_room(const M& m, const MElem<LT::N>& e)
     return m.n < m.cap && live_payload<LT>(m) + payload_bytes<LT>(e) <= m.budget;
 }
 
-static void step(Vec& v, M& m, int op, int base)
+static void step(Vec& v, M& m, int op, int base, typename Vec::const_iterator& cit)
 {
     switch (op)
     {
@@ -180,6 +180,20 @@ static void step(Vec& v, M& m, int op, int base)
         default: break;
     }
     inv<LT>(v, m, base);
+    // a long-lived const_iterator variable is re-seated after every operation (the block may have moved) by the converting
+    // assignment from a mutable iterator, then used for iteration
+    cit = v.begin();
+    {
+        usize i = 0;
+        for (; cit != v.end() && i < KMAX; ++cit, ++i)
+        {
+            if (i < m.n)
+            {
+                check_elem<LT>(*cit, m.e[i], base + 40);
+            }
+        }
+        verif_assert(i == m.n || i == KMAX, base + 5);
+    }
     verif_assert(verif_live_objs() == tr_count<LT>(m), base + 97);  // C06
     // C02/C18: the data range is inside the block, ordered, and no larger than memory_consumption()
     const Vec& cv = v;
@@ -227,9 +241,10 @@ extern "C" void h_entry()
         inv<LT>(v, m, 100);
         constexpr int ops[] = {OPS};
         int base = 200;
+        typename Vec::const_iterator cit = v.begin();
         for (int op : ops)
         {
-            step(v, m, op, base);
+            step(v, m, op, base, cit);
             base += 100;
         }
         verif_reach(1);
